@@ -77,7 +77,22 @@ PROPS["C18"] = {
     "needs_bin": True,
 }
 
+PROPS["C12"] = {
+    "rule": "histories of state-changing bash snippets (31 snippets covering shell/exported variables with spaces, quotes, newlines, non-ASCII, arrays, associative arrays, functions incl. nested, aliases, shopt, set -o, cwd, directory stack, unset, read-only, detached) each followed by a probe of all state classes: every single snippet and every ordered pair exhaustively, plus seeded histories of length 2-8; "
+            "each history is run (a) through the real StatefulExecutor+BashRunner (one bash per test case), (b) through one bash session (oracle), (c) its variable actions through the Lean model of the carrier (correspondence with (a)). non-trivial = at least two steps",
+    "trusted_base": [KERNEL, "the theorem statements being a faithful reading of the (partial) property", CORR,
+                     "bash 5.2 and the 60-line template src/executors/bash_runner.template: transparency of the carrier for functions, aliases, options, arrays, cwd and the directory stack is SAMPLED against a single bash session, not proved",
+                     "hand-written model lean/ScrutModel/Model/ShellState.lean of the variable carrier (bindings recorded, unsets not recorded, read-only/excluded names filtered, new processes start from scrut's own environment)", RUSTC],
+    "assumptions": ["the single-session oracle feeds the same snippets to one non-interactive bash with expand_aliases on; a detached step is a subshell there", "process-specific values ($$, BASHPID, SHLVL, RANDOM) are not probed"],
+}
+
 MANIFEST_TEXT = {
+    "C12": {
+        "text": "PARTIAL. Machine-checked: (1) for ANY shell semantics and carrier, if restoring what was persisted is observationally equivalent (CarrierTransparent), one-process-per-test execution of any history yields exactly the outputs of a single session, and detached steps leave nothing behind (C12_refines_single_session, C12_detached_leaves_nothing); (2) for the variable carrier as the template implements it, the refinement holds for every history that creates no read-only variable and never unsets an inherited variable (C12_vars_carried_partial); both excluded classes are proved to deviate (witness theorems) and are listed as known findings, reproduced against real bash on every run. That bash + the template are transparent for the other state classes (functions, aliases, shopt/set, arrays, cwd, dirstack, quoting) is sampled on every run against a single bash session (961 exhaustive pairs + seeded longer histories), not proved.",
+        "design_ref": "DESIGN.md §6 C12",
+        "note": "Partial by nature: CarrierTransparent is a fact about bash 5.2; the theorem is the simulation argument and the concrete variable carrier. Two open known findings (unset of inherited variable; read-only variables).",
+        "technique": "Lean 4 simulation theorem (parametric) + executable model of the variable carrier + differential runs against real bash (per-process vs single session)",
+    },
     "C18": {
         "text": "PARTIAL. Machine-checked: for any sequence of requested directory names and any disk state, UniqueNamer hands out pairwise distinct names that were not handed out before and do not exist on disk (C18_names_distinct, C18_next_free). Not provable in this family and therefore exercised on every run against the built binary: one working directory per document shared by its test cases and by no other document, the documented variables (TESTDIR, TESTFILE, TESTSHELL, TMPDIR, LANG, LANGUAGE, LC_ALL, TZ, COLUMNS, CDPATH, GREP_OPTIONS, SCRUT_TEST=<path>:<line>) in every test case, nothing left in TMPDIR after success / failure / timeout / skip / parse error / killed shell / missing shell, --work-directory kept and its inner temp directory removed, --keep-temporary-directories leaving exactly execution.*/temp.*, three scrut processes at once. One known finding: under --work-directory all documents share the user's directory (documented behaviour of the flag).",
         "design_ref": "DESIGN.md §6 C18",
